@@ -3,6 +3,7 @@ package main
 // Symbolic state, memory model and helpers.
 
 import (
+	"os"
 	"fmt"
 	"go/token"
 	"go/types"
@@ -16,7 +17,11 @@ type PCNode struct {
 	parent *PCNode
 	term   string
 	n      int
+	dn     int // value of the fresh-name counter when the fact was assumed
 }
+
+// curDecls: the declaration table of the running unit (fresh-name counter for PCNode.dn).
+var curDecls *Decls
 
 type State struct {
 	pc    *PCNode
@@ -30,10 +35,12 @@ type State struct {
 	memo  map[string]string // named sub-terms (e.g. Int value of a byte term)
 	writes  map[string][]writeRec // heap -> locations written on this path
 	noframe map[string]bool       // heaps with writes at unknown locations
+	heapPfx string                // suffix of lazily created initial heap constants (arbitrary earlier state of a callback unit)
+	pivots  []string              // lengths at which a slice was extended on this path (case-split hints for quantified goals)
 }
 
 func (s *State) clone() *State {
-	n := &State{pc: s.pc, alloc: s.alloc,
+	n := &State{pc: s.pc, alloc: s.alloc, heapPfx: s.heapPfx, pivots: append([]string(nil), s.pivots...),
 		cells: make(map[*Cell]Value, len(s.cells)),
 		heaps: make(map[string]string, len(s.heaps)),
 		wf:    make(map[string]bool, len(s.wf)),
@@ -90,7 +97,11 @@ func (s *State) assume(t string) {
 	if s.pc != nil {
 		n = s.pc.n + 1
 	}
-	s.pc = &PCNode{parent: s.pc, term: t, n: n}
+	dn := 0
+	if curDecls != nil {
+		dn = curDecls.n
+	}
+	s.pc = &PCNode{parent: s.pc, term: t, n: n, dn: dn}
 }
 
 func (s *State) pcList() []string {
@@ -136,6 +147,9 @@ func unsupported(format string, args ...interface{}) {
 }
 
 type Exec struct {
+	cutArr  map[*ssa.Call][]workItem
+	cutSpec map[*ssa.Call]*CutSpec
+	cutDone map[*ssa.Call]bool
 	prog      *Program
 	db        *ContractDB
 	d         *Decls
@@ -172,6 +186,7 @@ type Exec struct {
 	ghostNames []string
 	wfHeaps   map[string]bool
 	lateAxioms []lateAxiom
+	heapTypes  map[string]heapType
 	bounded   int // >0: bounded concretisation mode (loop unroll bound)
 	pendingBinds []Value
 	specEval  int
@@ -185,6 +200,7 @@ type Exec struct {
 
 func newExec(prog *Program, db *ContractDB, unit string) *Exec {
 	d := newDecls()
+	curDecls = d
 	x := &Exec{prog: prog, db: db, d: d, tc: newTypeCtx(d), unit: unit,
 		boxes: map[string]*Value{}, strs: map[string]string{}, notes: map[string]bool{},
 		unmod: map[string]bool{}, assumed: map[string]bool{}, inlined: map[string]bool{},
@@ -248,7 +264,67 @@ func (x *Exec) oblige(st *State, kind, label string, goal string, pos token.Pos)
 		x.record(st, kind, label, goal, pos, true)
 		return
 	}
+	// a universally quantified goal after a slice was extended on this path: prove it
+	// separately below and at/above the old length (the solvers do not find this case
+	// split by themselves inside the time budget); the two cases are exhaustive
+	if len(st.pivots) > 0 && strings.HasPrefix(goal, "(forall ((") && os.Getenv("GOVC_NOSPLIT") == "" {
+		if inst, consts, ok := x.skolemizeGoal(goal); ok {
+			c, p := consts[0], st.pivots[len(st.pivots)-1]
+			x.record(st, kind, label, mkImp(mkCmp("<", c, p), inst), pos, false)
+			x.record(st, kind, label, mkImp(mkCmp(">=", c, p), inst), pos, false)
+			return
+		}
+	}
 	x.record(st, kind, label, goal, pos, false)
+}
+
+// skolemizeGoal: (forall ((a Int) (b Int)) body) -> body with fresh constants.
+func (x *Exec) skolemizeGoal(goal string) (string, []string, bool) {
+	parts := splitTop(goal)
+	if len(parts) != 3 || parts[0] != "forall" {
+		return "", nil, false
+	}
+	body := parts[2]
+	if strings.HasPrefix(body, "(! ") {
+		if bp := splitTop(body); len(bp) >= 2 {
+			body = bp[1]
+		}
+	}
+	var consts []string
+	for _, b := range splitTop(parts[1]) {
+		bp := splitTop(b)
+		if len(bp) != 2 || bp[1] != sInt {
+			return "", nil, false
+		}
+		c := x.d.fresh("sk."+bp[0], sInt)
+		body = replaceTok(body, bp[0], c)
+		consts = append(consts, c)
+	}
+	return body, consts, len(consts) > 0
+}
+
+// replaceTok replaces whole-token occurrences of old in t.
+func replaceTok(t, old, new string) string {
+	var sb strings.Builder
+	i := 0
+	for {
+		j := strings.Index(t[i:], old)
+		if j < 0 {
+			sb.WriteString(t[i:])
+			return sb.String()
+		}
+		j += i
+		k := j + len(old)
+		before := j == 0 || t[j-1] == ' ' || t[j-1] == '('
+		after := k == len(t) || t[k] == ' ' || t[k] == ')'
+		sb.WriteString(t[i:j])
+		if before && after {
+			sb.WriteString(new)
+		} else {
+			sb.WriteString(old)
+		}
+		i = k
+	}
 }
 
 func (x *Exec) record(st *State, kind, label, goal string, pos token.Pos, trivial bool) {
@@ -339,7 +415,7 @@ func (x *Exec) heapTerm(st *State, name, sort string) string {
 		return t
 	}
 	x.heapSorts[name] = sort
-	t := x.d.constant(sanitize(name)+"@0", sort)
+	t := x.d.constant(sanitize(name)+"@0"+st.heapPfx, sort)
 	st.heaps[name] = t
 	return t
 }
@@ -355,6 +431,23 @@ func (x *Exec) fieldHeapName(structT types.Type, idx int) (string, string) {
 func (x *Exec) elemHeapName(elemT types.Type) (string, string) {
 	es := x.tc.sortOf(elemT)
 	name := "H$" + sanitize(es)
+	// Int-sorted elements: one heap per value class, so that the entry typing fact
+	// of the heap (reference below alloc0 / machine integer range) is true of every
+	// region it holds
+	if es == sInt {
+		switch x.tc.kindOf(elemT) {
+		case KRef, KMap, KIface, KChan:
+			name += "$ref"
+		case KInt:
+			if bits, signed, ok := intInfo(elemT); ok {
+				if signed {
+					name += fmt.Sprintf("$i%d", bits)
+				} else {
+					name += fmt.Sprintf("$u%d", bits)
+				}
+			}
+		}
+	}
 	x.initHeapWF(name, elemT, true)
 	return name, "(Array Int (Array Int " + es + "))"
 }
